@@ -579,6 +579,11 @@ _public_ int m_mod_set_tokenbucket(m_mod_t *mod, uint32_t rate, uint64_t burst) 
 
     /* If it was already set, remove old timer */
     if (mod->tb.timer.ns != 0) {
+        /*
+         * The bucket is being replaced: its refill timer must go even if the bucket is empty right now
+         * (deregistering consumes a token too), else it would keep refilling the new bucket on top of the new timer.
+         */
+        mod->tb.tokens = UINT64_MAX;
         deregister_mod_src(mod, M_SRC_TYPE_TMR, &mod->tb.timer, M_SRC_INTERNAL);
     }
     
